@@ -16,7 +16,8 @@ ASSUME = [
     "the dialer finishes before the third message travels: an alteration of message 3 must fail the listener only",
     "deadlocks caused by the MITM move are resolved by closing the in-memory pipe, never by a timer; the 300 s handshake "
     "timer never fires (a run in which it did is repeated, not judged)",
-    "dialed-peer expectations (right / other key, inline / SHA-256 multihash form) are exercised through two real Litep2p "
+    "dialed-peer expectations (right / other key, inline / SHA-256 multihash form, dialed address given as ip4 / ip6 / dns / dns4 / "
+    "dns6 with `localhost` resolved through the hosts file; only TCP negotiation distinguishes address forms) are exercised through two real Litep2p "
     "nodes over loopback TCP and by calling the real negotiate_connection on both ends of a loopback socket (hook), the comparison being done by negotiate_connection (30 s to get an event, inconclusive runs "
     "are repeated, not judged); the websocket transport has the same comparison but is not compiled into the harness",
     "a dialed peer id in SHA-256 form never equals the id an Ed25519 key proves (inline form), also for the same key: must fail",
@@ -29,7 +30,8 @@ ASSUME = [
 CHUNKS = {"whole", "byte1", "fields", "random"}
 PVS = {"asR", "noKey", "noSig", "sigByOther", "sigOverOtherStatic", "sigNoPrefix", "stolen", "unknownType", "garbageSig",
        "extraField", "noncanonKey", "weakKey"}   # replayH / replayHBadSig occur in the histories only
-CONSTS = {"Chunks": CHUNKS, "RoguePayloads": PVS}
+ADDR_FORMS = {"ip4", "ip6", "dns", "dns4", "dns6"}
+CONSTS = {"Chunks": CHUNKS, "RoguePayloads": PVS, "AddrForms": ADDR_FORMS}
 MC_LINES = ["SPECIFICATION Spec", "INVARIANTS Refines Auth NoHang Agreement", "CHECK_DEADLOCK FALSE"]
 GEN_LINES = ["SPECIFICATION Spec", "ACTION_CONSTRAINT Emit", "CHECK_DEADLOCK FALSE"]
 ONE = lambda ln: True
@@ -46,7 +48,7 @@ def classify(seg, idx):
                                                   "-via-negotiate" if c.get("route") == "negotiate" else "")
     what = sc["pv"] if sc["peer"] == "rogue" else "%s-m%s-%s" % (sc["mitm"]["move"], sc["mitm"]["msg"], sc["mitm"]["field"])
     if sc["dialed"] != "none":
-        what = "dialed-%s-%s-via-%s" % ("same-key" if sc["dialed"] == "B" else "other-key", sc["dialedForm"], ev.get("conc", {}).get("via", "?"))
+        what = "dialed-%s-%s-%s-via-%s" % ("same-key" if sc["dialed"] == "B" else "other-key", sc["dialedForm"], sc.get("addrForm", "ip4"), ev.get("conc", {}).get("via", "?"))
     return "%s-%s-%s-%s" % (ev["role"], ev["outcome"], ev["peer"] or "none", what)
 
 
@@ -87,6 +89,8 @@ def check(ctx):
             "err_garbageSig", "err_unknownType", "err_corrupt", "err_substitute", "err_drop", "err_replay", "err_extend",
             "err_truncadj", "err_truncraw"] + ["%s_%s_%s" % (o, via, c) for via in ("tcp", "negotiate", "ws", "wsnegotiate")
             for o, c in (("ok", "B_inline"), ("err", "C_inline"), ("err", "B_sha256"), ("err", "C_sha256"), ("ok", "listener"))] + [
+            "%s_%s_%s_%s" % (o, via, c, af) for via in ("tcp", "negotiate") for af in sorted(ADDR_FORMS - {"ip4"})
+            for o, c in (("ok", "B_inline"), ("err", "C_inline"), ("err", "B_sha256"), ("err", "C_sha256"))] + [
             "ok_hist_snowfixed_mem", "ok_hist_libp2pfixed_mem", "err_hist_replayH_mem", "err_hist_replayHBadSig_mem", "err_hist_Hbad_mem",
             "ok_hist_asR_mem", "ok_hist_snowfixed_negotiate", "err_hist_replayH_negotiate", "err_hist_replayHBadSig_negotiate"]
     for k in need:
